@@ -769,6 +769,13 @@ func driverConcat(c *Ctx) {
 				// the same base names with an array-like index in the next message
 				t = varNameRe.ReplaceAllString(t, "${1}[0]")
 			}
+			if g.pick(3) == 0 && !strings.Contains(t, "//") {
+				// the whole message on one line: strings, sizes and the terminator share the line with whatever follows
+				t = strings.Join(strings.Fields(strings.ReplaceAll(t, "\r\n", "\n")), " ")
+				if !strings.HasSuffix(t, ".") {
+					continue
+				}
+			}
 			_, errs, _ := sml.Parse(t)
 			if len(errs) == 0 && strings.HasSuffix(t, ".") {
 				parts = append(parts, t)
